@@ -178,7 +178,9 @@ def gen(t, tier):
     sc = {'api': api, 'pool': t.randint(1, 7), 'result_objects': bool(t.choice(2)) if api.startswith('pool.') else False,
           'policy': t.pick([['random'], ['sticky', 0.5], ['sticky', 0.2], ['sticky', 0.05]]),
           'items': [{'yields': t.randint(0, 3), 'fail': bool(t.chance(0.2)), 'none': bool(t.chance(0.15))} for _ in range(n)],
-          'busy_threads': t.pick([0, 0, 0, 40, 300, 2000])}
+          'busy_threads': t.pick([0, 0, 0, 40, 300, 2000]),
+          # the operating system refuses to start the k-th worker thread of the first call (thread / pid limit reached)
+          'start_fail': t.pick([None] * 10 + [0, 0, 1, 2])}
     if api.startswith('pool.') and t.chance(0.3):
         # the same pool object is used for a second call (after the first one returned or raised)
         m = t.randint(2, 5)
@@ -251,6 +253,17 @@ def run(sc, tape):
         return _run_callsite(sc, tape)
     from mapproxy.util import async_
     w = World(tape, policy=tuple(sc['policy']), step_cap=20000)
+    start_state = {'n': 0, 'fired': False}
+    if sc.get('start_fail') is not None:
+        class RefusedWorker(async_.ThreadWorker):
+            def start(self):
+                n = start_state['n']
+                start_state['n'] += 1
+                if n == sc['start_fail'] and not start_state['fired']:
+                    start_state['fired'] = True
+                    raise RuntimeError("can't start new thread")
+                return async_.threading.Thread.start(self)      # the World's patched start: adopted by the scheduler
+        w.extra_patches.append((async_, 'ThreadWorker', RefusedWorker))
     if sc.get('busy_threads'):
         # the fan-out happens in a busy server process: many other request threads are alive (seen through
         # threading.active_count / enumerate)
@@ -398,6 +411,10 @@ def run(sc, tape):
         if n == 0 and 'caller_exc' in out and isinstance(out['caller_exc'], IndexError):
             # empty input: args[0] of an empty list - an input-space question (no schedule involved), not C15
             unspecified += 1
+        elif 'caller_exc' in out and start_state['fired'] and isinstance(out['caller_exc'], RuntimeError) \
+                and "can't start new thread" in str(out['caller_exc']):
+            # the refusal was reported to the caller and the call ended: fine
+            unspecified += 1
         elif 'caller_exc' in out:
             ex = out['caller_exc']
             v = {'sig': 'C15:unexpected-exception:%s:%s' % (type(ex).__name__, rname),
@@ -428,6 +445,8 @@ def run(sc, tape):
         probes['perm_' + ''.join(map(str, finish_order))] = 1 if n == 6 else 0
     if len(rounds) > 1:
         probes['pool_used_twice'] = 1
+    if start_state['fired']:
+        probes['thread_start_refused'] = 1
     if probes_gc[0]:
         probes['gc_runs_during_second_call'] = probes_gc[0]
     if outs and outs[0].get('abandoned'):
